@@ -60,8 +60,19 @@ inline void onAlarm(int) {
 }
 
 inline void onTerminate() {
+  // an exception escaped the scenario (or std::terminate was called): log the fate with the same fields as the parent does
+  std::string what = "terminate";
+  if (std::exception_ptr p = std::current_exception()) {
+    try {
+      std::rethrow_exception(p);
+    } catch (std::exception &ex) {
+      what = std::string("uncaught exception: ") + ex.what();
+    } catch (...) {
+      what = "uncaught exception of unknown type";
+    }
+  }
   Value v = ev("Abort");
-  v.set("kind", "terminate");
+  v.set("kind", "terminate").set("run", g_run).set("scen", g_scen).set("stderr", what).set("hang", "unknown").set("san", "none").set("code", 3);
   emit(v);
   _exit(3);
 }
